@@ -75,3 +75,11 @@ Example registry_nonvacuous :
        (snd (supported_tags true wit_heap (Some wit_regime) [wit_addon])) = [1; 2; 7]%Z /\
   nth 0 (arrays (do_calls false wit_heap wit_calls)) [] = [1; 2; 7; 0]%Z.
 Proof. exact repaired_witness. Qed.
+
+(* non-vacuity of registry_never_written_partial: a call sequence without supportedTags that
+   really allocates (scenario summary and correction definition on the witness heap) *)
+Example registry_partial_nonvacuous :
+  let cs := [CScenarioSummary (Some wit_regime) [wit_addon]; CCorrectionDef (Some wit_regime) [wit_addon]] in
+  Forall (fun c => match c with CSupportedTags _ _ => False | _ => True end) cs /\
+  length (arrays (do_calls false wit_heap cs)) = 4%nat /\ length (corrdefs (do_calls false wit_heap cs)) = 1%nat.
+Proof. split; [repeat constructor|vm_compute; split; reflexivity]. Qed.
